@@ -2,6 +2,7 @@ package props
 
 import (
 	"bytes"
+	"context"
 	stdjson "encoding/json"
 	"io"
 	"strconv"
@@ -71,6 +72,49 @@ var c05Entries = []c05Entry{
 		var v struct{ U c05Unm }
 		return c05DecodeOne(b, &v)
 	}, true, true},
+	// option and context entry points (they share pooled decoder contexts with the ones above and
+	// with each other: the first-win entries run directly before the context ones)
+	{"UnmarshalNoEscape:iface", func(b []byte) bool { var v any; return gojson.UnmarshalNoEscape(b, &v) == nil }, false, false},
+	{"UnmarshalWithOption(FirstWin):struct{A}", func(b []byte) bool {
+		var v struct {
+			A int `json:"a"`
+		}
+		return gojson.UnmarshalWithOption(b, &v, gojson.DecodeFieldPriorityFirstWin()) == nil
+	}, false, true},
+	{"UnmarshalContext:struct{A}", func(b []byte) bool {
+		var v struct {
+			A int `json:"a"`
+		}
+		return gojson.UnmarshalContext(context.Background(), b, &v) == nil
+	}, false, true},
+	{"DecodeWithOption(FirstWin):struct{A}", func(b []byte) bool {
+		var v struct {
+			A int `json:"a"`
+		}
+		d := gojson.NewDecoder(bytes.NewReader(b))
+		if d.DecodeWithOption(&v, gojson.DecodeFieldPriorityFirstWin()) != nil {
+			return false
+		}
+		var x any
+		return d.Decode(&x) == io.EOF
+	}, true, true},
+	{"DecodeContext:struct{A}", func(b []byte) bool {
+		var v struct {
+			A int `json:"a"`
+		}
+		d := gojson.NewDecoder(bytes.NewReader(b))
+		if d.DecodeContext(context.Background(), &v) != nil {
+			return false
+		}
+		var x any
+		return d.Decode(&x) == io.EOF
+	}, true, true},
+	{"Unmarshal:struct{A}(after-options)", func(b []byte) bool {
+		var v struct {
+			A int `json:"a"`
+		}
+		return gojson.Unmarshal(b, &v) == nil
+	}, false, true},
 }
 
 // typed entries accept only documents of a matching shape, so "ref accepts but entry rejects"
